@@ -12,6 +12,7 @@ import (
 	"fmt"
 	"net"
 	"os"
+	"runtime"
 	"os/exec"
 	"sort"
 	"strings"
@@ -20,6 +21,8 @@ import (
 	"time"
 
 	"github.com/btcsuite/btcd/btcec/v2"
+	"github.com/btcsuite/btclog/v2"
+	"github.com/lightninglabs/pool"
 	"github.com/lightninglabs/pool/account"
 	"github.com/lightninglabs/pool/auctioneer"
 	"github.com/lightninglabs/pool/auctioneerrpc"
@@ -31,6 +34,24 @@ import (
 	"google.golang.org/grpc/status"
 	"google.golang.org/grpc/test/bufconn"
 )
+
+// Whole-client fault-injection machinery of C18. Reusable entry points
+// (also used by other properties, e.g. C06 for reconnects with a staged batch):
+//
+//	c18Scn / c18Op                 a fault scenario: ops sub|err|shut with, per op, the number of refused Terms
+//	                               probes (Refuse), of failing stream opens after a successful probe (FailOpen) and
+//	                               the auctioneer's behaviour per incoming commitment (Beh: ok errBC shutBC errAC
+//	                               shutAC errMid reject)
+//	c18RunScenario(scn, uniq)      run it on a fresh REAL auctioneer.Client + REAL rpcServer.serverHandler loop
+//	                               against a fresh in-process gRPC auctioneer; returns per-op observations, the
+//	                               model op lines and the oracle verdict
+//	c18RunScenarioWith(.., hooks)  the same with a custom BatchSource / BatchCleaner (Config) and BatchSnapshot RPC
+//	                               (server side) and a callback after every op (hooks.AfterOp)
+//	c18RunLocal / c18Spawn         run many scenarios on parallel workers in this process / in a child process
+//	                               (env C18_CHILD=1; a panic of a real-code goroutine cannot be recovered)
+//	c18GenScenario(r)              the seeded generator
+//
+// Everything keyed by `uniq` (account keys) is disjoint between concurrently running scenarios.
 
 // ---------------------------------------------------------------- in-process auctioneer
 
@@ -86,6 +107,17 @@ type c18Server struct {
 	pubs     []*btcec.PublicKey
 	activity *int64
 	midFault int32 // a stream was just failed right after its challenge
+	snapshot func(*auctioneerrpc.BatchSnapshotRequest) (*auctioneerrpc.BatchSnapshotResponse, error)
+}
+
+func (s *c18Server) BatchSnapshot(_ context.Context,
+	req *auctioneerrpc.BatchSnapshotRequest) (*auctioneerrpc.BatchSnapshotResponse, error) {
+
+	s.touch()
+	if s.snapshot == nil {
+		return nil, status.Error(codes.NotFound, "batch snapshot not found")
+	}
+	return s.snapshot(req)
 }
 
 func (s *c18Server) touch() { atomic.StoreInt64(s.activity, time.Now().UnixNano()) }
@@ -268,8 +300,76 @@ type c18Op struct {
 	Kind   string   `json:"kind"` // sub | err | shut
 	Acct   int      `json:"acct,omitempty"`
 	Refuse int      `json:"refuse,omitempty"`
-	Beh    []string `json:"beh,omitempty"`
+	// FailOpen: that many of the next stream opens fail although the Terms
+	// probe before them succeeded
+	FailOpen int      `json:"fail_open,omitempty"`
+	Beh      []string `json:"beh,omitempty"`
 }
+
+// c18Hooks customise a scenario run (all optional).
+type c18Hooks struct {
+	BatchSource  auctioneer.BatchSource
+	BatchCleaner auctioneer.BatchCleaner
+	Snapshot     func(*auctioneerrpc.BatchSnapshotRequest) (*auctioneerrpc.BatchSnapshotResponse, error)
+	AfterOp      func(opIdx int, op c18Op, client *auctioneer.Client)
+}
+
+// c18HandlerLog collects what the real serverHandler logged, per scenario
+// (keyed by the handler's goroutine id).
+type c18HandlerLog struct {
+	mu      sync.Mutex
+	main    []string
+	results []string
+	handled bool
+}
+
+var c18HandlerLogs sync.Map // goroutine id -> *c18HandlerLog
+
+func c18Goid() string {
+	var b [64]byte
+	n := runtime.Stack(b[:], false)
+	f := strings.Fields(string(b[:n]))
+	if len(f) > 1 {
+		return f[1]
+	}
+	return ""
+}
+
+// c18RPCLogger is installed as the RPC server's logger.
+type c18RPCLogger struct{ btclog.Logger }
+
+func (c18RPCLogger) Errorf(f string, a ...any) {
+	v, ok := c18HandlerLogs.Load(c18Goid())
+	if !ok {
+		return
+	}
+	h := v.(*c18HandlerLog)
+	var err error
+	if len(a) > 0 {
+		err, _ = a[0].(error)
+	}
+	h.mu.Lock()
+	defer h.mu.Unlock()
+	switch {
+	case strings.HasPrefix(f, "Error in server stream"):
+		h.main = append(h.main, c18ErrClass(err))
+		h.handled = true
+	case strings.HasPrefix(f, "Error re-"):
+		h.results = append(h.results, c18ErrClass(err))
+	case strings.HasPrefix(f, "Unknown server error"):
+		// printed once per received error, after it was dealt with
+		if h.handled {
+			h.results = append(h.results, c18ErrClass(err))
+		} else {
+			h.main = append(h.main, c18ErrClass(err))
+		}
+		h.handled = false
+	}
+}
+func (c18RPCLogger) Infof(string, ...any)  {}
+func (c18RPCLogger) Debugf(string, ...any) {}
+func (c18RPCLogger) Tracef(string, ...any) {}
+func (c18RPCLogger) Warnf(string, ...any)  {}
 
 type c18Scn struct {
 	Kind   string  `json:"kind"` // "client"
@@ -324,6 +424,13 @@ func c18ErrClass(err error) string {
 // c18RunScenario executes one fault scenario on a fresh real Client against a
 // fresh in-process auctioneer.
 func c18RunScenario(scn c18Scn, uniq int) *c18ScnResult {
+	return c18RunScenarioWith(scn, uniq, nil)
+}
+
+func c18RunScenarioWith(scn c18Scn, uniq int, hooks *c18Hooks) *c18ScnResult {
+	if hooks == nil {
+		hooks = &c18Hooks{}
+	}
 	res := &c18ScnResult{}
 	var activity int64
 	touch := func() { atomic.StoreInt64(&activity, time.Now().UnixNano()) }
@@ -349,16 +456,42 @@ func c18RunScenario(scn c18Scn, uniq int) *c18ScnResult {
 
 	minB := time.Duration(scn.MinMs) * time.Millisecond
 	maxB := time.Duration(scn.MaxMs) * time.Millisecond
+	srv.snapshot = hooks.Snapshot
+	var failOpen, failedOpens int32
+	var batchSource auctioneer.BatchSource = c18NoBatch{}
+	if hooks.BatchSource != nil {
+		batchSource = hooks.BatchSource
+	}
 	client, err := auctioneer.NewClient(&auctioneer.Config{
 		ServerAddress: "passthrough:///verif",
 		Insecure:      true,
-		DialOpts: []grpc.DialOption{grpc.WithContextDialer(
-			func(ctx context.Context, _ string) (net.Conn, error) { return lis.DialContext(ctx) },
-		)},
+		DialOpts: []grpc.DialOption{
+			grpc.WithContextDialer(
+				func(ctx context.Context, _ string) (net.Conn, error) { return lis.DialContext(ctx) },
+			),
+			// "the new stream fails although the Terms probe succeeded"
+			grpc.WithStreamInterceptor(func(ctx context.Context, desc *grpc.StreamDesc, cc *grpc.ClientConn,
+				method string, streamer grpc.Streamer, opts ...grpc.CallOption) (grpc.ClientStream, error) {
+
+				for {
+					n := atomic.LoadInt32(&failOpen)
+					if n <= 0 {
+						break
+					}
+					if atomic.CompareAndSwapInt32(&failOpen, n, n-1) {
+						atomic.AddInt32(&failedOpens, 1)
+						touch()
+						return nil, status.Error(codes.Unavailable, "verif: stream open refused")
+					}
+				}
+				return streamer(ctx, desc, cc, method, opts...)
+			}),
+		},
 		Signer:       signer,
 		MinBackoff:   minB,
 		MaxBackoff:   maxB,
-		BatchSource:  c18NoBatch{},
+		BatchSource:  batchSource,
+		BatchCleaner: hooks.BatchCleaner,
 		BatchVersion: order.LatestBatchVersion,
 	})
 	if err != nil {
@@ -382,45 +515,18 @@ func c18RunScenario(scn c18Scn, uniq int) *c18ScnResult {
 		}
 	}
 
-	// the main error handler, as rpcServer.serverHandler reacts to
-	// StreamErrChan (tied to the source by the generated fact
-	// Pool.Gen.C18.handlerReaction)
-	var (
-		hmu        sync.Mutex
-		mainErrs   []string
-		handlerRes []string
-		hquit      = make(chan struct{})
-		hdone      = make(chan struct{})
-	)
-	go func() {
-		defer close(hdone)
-		for {
-			select {
-			case <-client.FromServerChan:
-			case err := <-client.StreamErrChan:
-				touch()
-				hmu.Lock()
-				mainErrs = append(mainErrs, c18ErrClass(err))
-				hmu.Unlock()
-				if err != nil && err != auctioneer.ErrServerShutdown {
-					for err != nil && err != auctioneer.ErrClientShutdown {
-						select {
-						case <-hquit:
-							return
-						default:
-						}
-						err = client.HandleServerShutdown(err)
-						touch()
-						hmu.Lock()
-						handlerRes = append(handlerRes, c18ErrClass(err))
-						hmu.Unlock()
-					}
-				}
-			case <-hquit:
-				return
-			}
-		}
-	}()
+	// the main error handler: the REAL rpcServer.serverHandler loop; what it
+	// did with each error is read from its log lines
+	hlog := &c18HandlerLog{}
+	var hgoid string
+	hready := make(chan struct{})
+	stopHandler := pool.VerifC18ServerHandler(client, func() {
+		hgoid = c18Goid()
+		c18HandlerLogs.Store(hgoid, hlog)
+		close(hready)
+	})
+	<-hready
+	defer c18HandlerLogs.Delete(hgoid)
 
 	// quiet = nothing observable happened for a while, measured in ticks of
 	// a canary goroutine so that a loaded machine stretches the window
@@ -458,9 +564,10 @@ func c18RunScenario(scn c18Scn, uniq int) *c18ScnResult {
 			commitsBefore = len(cur.commits)
 		}
 		srv.mu.Unlock()
-		hmu.Lock()
-		mainErrs, handlerRes = nil, nil
-		hmu.Unlock()
+		hlog.mu.Lock()
+		hlog.main, hlog.results = nil, nil
+		hlog.mu.Unlock()
+		atomic.StoreInt32(&failOpen, int32(op.FailOpen))
 		or := c18OpResult{}
 		touch()
 		var injectedAt time.Time
@@ -559,10 +666,10 @@ func c18RunScenario(scn c18Scn, uniq int) *c18ScnResult {
 			}
 		}
 		srv.mu.Unlock()
-		hmu.Lock()
-		or.MainErrs = append([]string(nil), mainErrs...)
-		or.HandlerRes = append([]string(nil), handlerRes...)
-		hmu.Unlock()
+		hlog.mu.Lock()
+		or.MainErrs = append([]string(nil), hlog.main...)
+		or.HandlerRes = append([]string(nil), hlog.results...)
+		hlog.mu.Unlock()
 		or.Open = client.IsSubscribed()
 		if or.Ret != "hung" {
 			for k := range client.VerifC18Subscribed() {
@@ -571,6 +678,9 @@ func c18RunScenario(scn c18Scn, uniq int) *c18ScnResult {
 			sort.Ints(or.Map)
 		}
 		res.Ops = append(res.Ops, or)
+		if hooks.AfterOp != nil {
+			hooks.AfterOp(opIdx, op, client)
+		}
 
 		// ---- line for the model ----
 		// identities of handshakes that failed before the challenge
@@ -622,7 +732,7 @@ func c18RunScenario(scn c18Scn, uniq int) *c18ScnResult {
 			if len(op.Beh) > 0 {
 				behTok = strings.Join(op.Beh, ",")
 			}
-			line := fmt.Sprintf("C18 cl %s %d %d %s", op.Kind, op.Acct, op.Refuse, behTok)
+			line := fmt.Sprintf("C18 cl %s %d %d %d %s", op.Kind, op.Acct, op.Refuse, op.FailOpen, behTok)
 			fi := func(l []int) string {
 				if len(l) == 0 {
 					return "-"
@@ -654,9 +764,7 @@ func c18RunScenario(scn c18Scn, uniq int) *c18ScnResult {
 			out := fmt.Sprintf("ret=%s main=%s handler=%s new=%d attempts=%d map=%s cur=%s subs=%s alive=%s open=%s",
 				ret, fe(or.MainErrs), fe(or.HandlerRes), or.NewStreams, or.Attempts, fi(or.Map), fi(or.Cur),
 				fi(or.CurSubs), b2(or.Alive), b2(or.Open))
-			if chaos || or.Ret == "hung" {
-				// concurrent HandleServerShutdown invocations: outside
-				// the modelled fragment, oracle only from here on
+			if or.Ret == "hung" {
 				modelled = false
 			} else {
 				res.Lines = append(res.Lines, [2]string{line, out})
@@ -726,7 +834,6 @@ func c18RunScenario(scn c18Scn, uniq int) *c18ScnResult {
 		res.Bad = append(res.Bad, "auctioneer could not verify a handshake: "+strings.Join(res.VerifyBad, "; "))
 	}
 
-	close(hquit)
 	stopped := make(chan struct{})
 	go func() { _ = client.Stop(); close(stopped) }()
 	select {
@@ -734,9 +841,8 @@ func c18RunScenario(scn c18Scn, uniq int) *c18ScnResult {
 	case <-time.After(3 * time.Second):
 		res.StopHung = true
 	}
-	select {
-	case <-hdone:
-	case <-time.After(time.Second):
+	if !stopHandler(time.Second) {
+		res.StopHung = true
 	}
 	return res
 }
@@ -775,6 +881,14 @@ func c18GenScenario(r *Run) c18Scn {
 		}
 		return 1 + r.Rng.Intn(5)
 	}
+	// only for idle faults: a failed open inside a direct subscription's own
+	// inline reconnect is returned to the caller and not retried by anyone
+	failOpen := func() int {
+		if r.Rng.Intn(5) != 0 {
+			return 0
+		}
+		return 1 + r.Rng.Intn(2)
+	}
 	nsub := 0
 	nops := 2 + r.Rng.Intn(6)
 	for i := 0; i < nops; i++ {
@@ -793,9 +907,9 @@ func c18GenScenario(r *Run) c18Scn {
 			nsub++
 			scn.Ops = append(scn.Ops, op)
 		case x < 8:
-			scn.Ops = append(scn.Ops, c18Op{Kind: "err", Refuse: refuse(), Beh: script(nsub, true)})
+			scn.Ops = append(scn.Ops, c18Op{Kind: "err", Refuse: refuse(), FailOpen: failOpen(), Beh: script(nsub, true)})
 		default:
-			scn.Ops = append(scn.Ops, c18Op{Kind: "shut", Refuse: refuse(), Beh: script(nsub, true)})
+			scn.Ops = append(scn.Ops, c18Op{Kind: "shut", Refuse: refuse(), FailOpen: failOpen(), Beh: script(nsub, true)})
 		}
 	}
 	return scn
@@ -803,6 +917,7 @@ func c18GenScenario(r *Run) c18Scn {
 
 // c18RunLocal runs scenarios on parallel workers inside this process.
 func c18RunLocal(scns []c18Scn, base int) []*c18ScnResult {
+	pool.VerifC18UseRPCLogger(c18RPCLogger{Logger: btclog.Disabled})
 	results := make([]*c18ScnResult, len(scns))
 	var wg sync.WaitGroup
 	next := int64(-1)
@@ -938,6 +1053,9 @@ func c18Clients(r *Run, scns []c18Scn) {
 				break
 			}
 			r.Count("client/op/" + op.Kind)
+			if op.FailOpen > 0 {
+				r.Count("client/open-fails")
+			}
 			or := res.Ops[j]
 			if or.Attempts > or.NewStreams {
 				r.Count("client/refused-connects")
